@@ -440,6 +440,36 @@ def oracle(ctx):
                                                 "module_directory": bool(md), "how": how}, bad, "oracle.tree")
                 if len(ctx.violations) > 5:
                     break
+        # a module directory shared with a lookup over ANOTHER root (outside this lookup's directories): a module
+        # file generated there for the same URI, not older than this lookup's own source, must not be served
+        st2 = ctx.stream("oracle.shared_module_directory", "oracle")
+        for uri, how in (("index.html", "get"), ("/index.html", "/call.html"), ("index.html", "/sub/deep/call.html")):
+            st2["cases"] += 1
+            shared = os.path.join(base, "mods_shared_%d" % st2["cases"])
+            os.makedirs(shared, exist_ok=True)
+            try:
+                old = 1_000_000_000
+                os.utime(os.path.join(base, "root", "index.html"), (old, old))
+                other = TemplateLookup(directories=[os.path.join(base, "rootx")], module_directory=shared)
+                other.get_template("index.html").render()
+                lk = TemplateLookup(directories=[roots[0]], module_directory=shared)
+                if how == "get":
+                    t = lk.get_template(uri)
+                    out = t.render()
+                    fn = t.filename
+                else:
+                    out = lk.get_template(how).render(target=uri)
+                    fn = None
+                if SECRET in out or (fn is not None and not inside(fn, roots)):
+                    ctx.violation("lookup-escape", {"input": uri, "dirs": ["root"], "module_directory": True, "how": how,
+                                                    "shared_module_directory_with": "rootx"},
+                                  "content of a file outside the lookup's directories reached the output through a "
+                                  "module file generated by another lookup sharing module_directory: %r" % out[:80],
+                                  "oracle.shared_module_directory")
+            except (X.TemplateLookupException,):
+                pass
+            finally:
+                shutil.rmtree(shared, ignore_errors=True)
         after = snapshot(base)
         created = {f for f in after - before}
         stray = [f for f in created if not f.startswith("mods" + os.sep) and f not in seen_stray]
